@@ -7,7 +7,7 @@ echo "| seed | check | exit | violations printed | first violation |" > $out
 echo "|---|---|---|---|---|" >> $out
 while read seed chk; do
   [ -z "$seed" ] && continue
-  if ! git -C ${SEED_REPO:-/repo} apply --check seeded/$seed/patch.diff 2>/dev/null; then
+  if ! git -C ${SEED_REPO:-/repo} apply --check $PWD/seeded/$seed/patch.diff 2>/dev/null; then
     echo "| $seed | $chk | - | - | patch does not apply to the current tree (see meta.json: superseded) |" >> $out; continue
   fi
   line=$(./bin/try_seed.sh $seed $chk)
